@@ -115,6 +115,7 @@ def check_route(route, v, scratch):
         got = [a[0] if len(a) == 1 and not k else ("<bad call>", a, k) for a, k in log]
     if len(got) != 1:
         return Failure(case, f"{route}({v!r}): sink called {len(got)} times"), "loaded"
+    v = _base_value(v)
     if not values.deep_equal(got[0], v):
         return (
             Failure(
@@ -125,6 +126,26 @@ def check_route(route, v, scratch):
             "loaded",
         )
     return None, "loaded"
+
+
+def _base_value(v):
+    """an instance of a subclass of a constant type stands for its plain value (what the base
+    type's own operations see, not what an overridden __str__ / __repr__ / __int__ says)"""
+    if isinstance(v, bool) or v is None:
+        return v
+    if isinstance(v, str) and type(v) is not str:
+        return str.__add__("", v)
+    if isinstance(v, int) and type(v) is not int:
+        return int.__add__(v, 0)
+    if isinstance(v, float) and type(v) is not float:
+        return float.__add__(v, 0.0)
+    if isinstance(v, bytes) and type(v) is not bytes:
+        return bytes.__add__(b"", v)
+    if isinstance(v, list):
+        return [_base_value(x) for x in v]
+    if isinstance(v, dict):
+        return {_base_value(k): _base_value(x) for k, x in v.items()}
+    return v
 
 
 def _enc(v):
@@ -232,6 +253,28 @@ def check_construction(label, name, arg, thunk):
             ),
             "encoded",
         )
+    # the encoding is a property of the opcode object, not of what has been done with it: built
+    # again, put in a Pickled, interpreted / analysed, it still encodes to the same bytes
+    try:
+        from fickling.analysis import check_safety
+        from fickling.fickle import Pickled, Stop
+
+        op2 = thunk()
+        holder = Pickled([op2, Stop()])
+        for use in (lambda: holder.ast, lambda: holder.has_import, lambda: check_safety(holder)):
+            try:
+                use()
+            except Exception:  # noqa: BLE001
+                pass
+        enc2 = op2.encode()
+    except Exception:  # noqa: BLE001
+        enc2 = enc
+    if bytes(enc2) != bytes(enc):
+        return (
+            Failure(case, f"{label} {name}({_r(arg)}) encodes to {_r(bytes(enc))} when new but to {_r(bytes(enc2))} "
+                          "after the Pickled holding it has been interpreted"),
+            "encoded",
+        )
     rinfo, rarg, _ = first
     want = expected_arg(name, arg)
     if label in ("Get.create", "Put") or name in ("GET", "PUT"):
@@ -322,7 +365,9 @@ def _value_strategy():
 
     # plus text with unpaired surrogates (legal str values; pickle itself encodes them with
     # surrogatepass)
-    scal = st.one_of(values.scalars(), values.scalars(), values.scalars(),
+    import verif_objs
+
+    scal = st.one_of(values.scalars(), values.scalars(), values.scalars(), st.sampled_from(verif_objs.SUBCLASS_VALUES),
                      st.sampled_from(["\ud800", "a\udfffb", "\udc80x", "\ud83d", "\ude00\ud83d"]))  # fmt: skip
     key = st.one_of(values.texts(6), values.ints(), values.byteses(4), st.just("\udcff"))
     return st.one_of(
@@ -355,7 +400,7 @@ def run_shard(spec, seed):
 
             def body(case):
                 route, v = case
-                if route == "cli_create" and (isinstance(v, bool) or not isinstance(v, (str, bytes, int))):
+                if route == "cli_create" and type(v) not in (str, bytes, int):
                     route = "insert_first"
                 f, klass = check_route(route, v, scratch)
                 res.note(
